@@ -1,9 +1,13 @@
 /-
-C04 composed with C02: the output file of `OfflineRenderDriver.run` has exactly as many frames as the
-input file, for every accepted session and every way the reader splits the input into blocks.
+C04 composed with C02/C03: the output file of `OfflineRenderDriver.run` has exactly as many frames as the
+input file, and its sample codes are the quantised, gain-scaled, upmixed sample-by-sample specification of the
+rendering, for every accepted session and every way the reader splits the input into blocks.
 
-`FileRender.run` (glue model, C04) takes the blocks the renderer returned; `Renderer.renderAll`
-(renderer model, C02/C03) is what the renderer returns (all `render` calls plus `get_tail`, concatenated).
+`FileRender.run` (glue model, C04) takes the blocks the renderer returned; `Renderer.renderAllOS`
+(renderer model with the partitioned overlap-save convolver and the numpy exceptions, C02/C03) is what the renderer
+returns (all `render` calls plus `get_tail`, concatenated).  The headline theorems (`file_frames_eq_input`,
+`file_render_blocks_frames`, `file_samples_eq_spec`) are about that model; the `_fir` versions are the older statements
+about the renderer model with the direct-form FIR stand-in and totalised indexing (`renderAll`).
 -/
 import Earverif.Props.C04
 import Earverif.Props.C02
@@ -15,11 +19,11 @@ open Earverif.Renderer
 /-- A renderer output row as the list of samples the glue model works on. -/
 def rowList {n : Nat} (r : Earverif.Stream.Frame n) : List Rat := r.v.toList
 
-/-- **Frames out = frames in**, end to end on the two models: whatever the blocking of the input
+/-- **Frames out = frames in** (FIR stand-in model), end to end on the two models: whatever the blocking of the input
 (`parts`, as produced by `iter_sample_blocks(8192)`), if the session is accepted (`SessionOK`), the
 renderer succeeds and the file written from its output has exactly `parts.flatten.length` frames, each
 with `nChannels` samples when the layout has `n` channels. -/
-theorem file_frames_eq_input {n : Nat} (c : Cfg (Earverif.Stream.Frame n))
+theorem file_frames_eq_input_fir {n : Nat} (c : Cfg (Earverif.Stream.Frame n))
     (objs : List (ObjItem (Earverif.Stream.Frame n))) (dss : List (DsItem (Earverif.Stream.Frame n)))
     (hoas : List (HoaItem (Earverif.Stream.Frame n)))
     (hok : SessionOK c objs dss hoas) (parts : List (List (List Rat)))
@@ -209,12 +213,12 @@ theorem renderAll_parts {n : Nat} (c : Cfg (Earverif.Stream.Frame n)) (objs dss 
       cases h
       exact ⟨st, os, st'', tail, rfl, ht, rfl⟩
 
-/-- **File in, file out: frames out = frames in, through the real call sequence.** For every accepted session
+/-- **File in, file out: frames out = frames in, through the real call sequence** (FIR stand-in model). For every accepted session
 (`SessionOK`), every input file content `input` and every block size `≥ 1` (8192 in `OfflineRenderDriver`):
 reading the file with `iter_sample_blocks(blocksize)` (C18's specification), calling `render` once per block
 and `get_tail` once at the end (C02/C03's renderer model), scaling, upmixing, monitoring and writing each
 returned block (`FileRender.run`) succeeds and writes exactly `input.length` frames of `nChannels` samples each. -/
-theorem file_render_blocks_frames {n : Nat} (c : Cfg (Earverif.Stream.Frame n))
+theorem file_render_blocks_frames_fir {n : Nat} (c : Cfg (Earverif.Stream.Frame n))
     (objs : List (ObjItem (Earverif.Stream.Frame n))) (dss : List (DsItem (Earverif.Stream.Frame n)))
     (hoas : List (HoaItem (Earverif.Stream.Frame n)))
     (hok : SessionOK c objs dss hoas) (input : List (List Rat)) (blocksize : Nat) (hbs : 1 ≤ blocksize)
@@ -248,5 +252,282 @@ theorem file_render_blocks_frames {n : Nat} (c : Cfg (Earverif.Stream.Frame n))
     · rw [List.mem_singleton] at hb
       subst hb
       exact hrow tail fr hfr
+
+/-! ### The same against the renderer model with the overlap-save convolver and the numpy exceptions (`renderAllOS`) -/
+
+/-- `renderer.render(...)` of the C02/C03 renderer model (`Model/OverlapSave.lean`) as an entry point of `renderCalls`. -/
+def mRenderOS {n : Nat} (c : Cfg (Earverif.Stream.Frame n)) (st : RStateOS (Earverif.Stream.Frame n))
+    (b : List (List Rat)) :
+    Except (ChkErr Earverif.Timeline.Err) (RStateOS (Earverif.Stream.Frame n) × List (List Rat)) :=
+  match st.render c b with
+  | .error e => .error e
+  | .ok (st', o) => .ok (st', o.map rowList)
+
+/-- `renderer.get_tail(...)`. -/
+def mTailOS {n : Nat} (c : Cfg (Earverif.Stream.Frame n)) (st : RStateOS (Earverif.Stream.Frame n)) :
+    Except (ChkErr Earverif.Timeline.Err) (List (List Rat)) :=
+  match st.get_tail c with
+  | .error e => .error e
+  | .ok (_, t) => .ok (t.map rowList)
+
+theorem renderCalls_runOS {n : Nat} (c : Cfg (Earverif.Stream.Frame n)) :
+    ∀ (parts : List (List (List Rat))) (st st' st'' : RStateOS (Earverif.Stream.Frame n))
+      (os : List (List (Earverif.Stream.Frame n))) (tail : List (Earverif.Stream.Frame n)),
+    RStateOS.run c st parts = .ok (st', os) → st'.get_tail c = .ok (st'', tail) →
+    renderCalls (mRenderOS c) (mTailOS c) st parts = .ok (os.map (·.map rowList) ++ [tail.map rowList]) := by
+  intro parts
+  induction parts with
+  | nil =>
+    intro st st' st'' os tail h1 h2
+    simp only [RStateOS.run] at h1
+    cases h1
+    simp [renderCalls, mTailOS, h2]
+  | cons b bs ih =>
+    intro st st' st'' os tail h1 h2
+    simp only [RStateOS.run] at h1
+    cases hr : st.render c b with
+    | error e => rw [hr] at h1; cases h1
+    | ok r =>
+      obtain ⟨st1, o⟩ := r
+      rw [hr] at h1
+      simp only at h1
+      cases hrun : RStateOS.run c st1 bs with
+      | error e => rw [hrun] at h1; cases h1
+      | ok r2 =>
+        obtain ⟨st2, os2⟩ := r2
+        rw [hrun] at h1
+        simp only at h1
+        cases h1
+        have := ih st1 st' st'' os2 tail hrun h2
+        simp [renderCalls, mRenderOS, hr, this]
+
+theorem renderAllOS_parts {n : Nat} (c : Cfg (Earverif.Stream.Frame n)) (objs dss hoas)
+    (parts : List (List (List Rat))) (out : List (Earverif.Stream.Frame n))
+    (h : renderAllOS c objs dss hoas parts = .ok out) :
+    ∃ st os st'' tail, RStateOS.run c (RStateOS.init c objs dss hoas) parts = .ok (st, os) ∧
+      st.get_tail c = .ok (st'', tail) ∧ out = os.flatten ++ tail := by
+  simp only [renderAllOS] at h
+  cases hrun : RStateOS.run c (RStateOS.init c objs dss hoas) parts with
+  | error e => rw [hrun] at h; cases h
+  | ok r =>
+    obtain ⟨st, os⟩ := r
+    rw [hrun] at h
+    simp only at h
+    cases ht : st.get_tail c with
+    | error e => rw [ht] at h; cases h
+    | ok r2 =>
+      obtain ⟨st'', tail⟩ := r2
+      rw [ht] at h
+      simp only at h
+      cases h
+      exact ⟨st, os, st'', tail, rfl, ht, rfl⟩
+
+/-- **Frames out = frames in**, end to end on the two models: whatever the blocking of the input (`parts`, as produced
+by `iter_sample_blocks(8192)`), if the session is inside the static conditions (`SessionWF`: accepted timelines, tracks
+inside the input, decode matrices of the right width, ≥ 1 tap), the renderer succeeds and the file written from its
+output has exactly `parts.flatten.length` frames, each with `nChannels` samples when the layout has `n` channels. -/
+theorem file_frames_eq_input {n : Nat} (c : Cfg (Earverif.Stream.Frame n))
+    (objs : List (ObjItem (Earverif.Stream.Frame n))) (dss : List (DsItem (Earverif.Stream.Frame n)))
+    (hoas : List (HoaItem (Earverif.Stream.Frame n)))
+    (hok : SessionWF c objs dss hoas) (parts : List (List (List Rat)))
+    (chans : List String) (hn : chans.length = n) (speakers gain f M) :
+    ∃ out, renderAllOS c objs dss hoas parts = .ok out ∧
+      (run chans speakers gain f M [out.map rowList]).frames.length = parts.flatten.length ∧
+      ∀ fr ∈ (run chans speakers gain f M [out.map rowList]).frames,
+        fr.length = (run chans speakers gain f M [out.map rowList]).nChannels := by
+  obtain ⟨out, hout, hlen, -⟩ := C02_length_and_origin_os c objs dss hoas hok parts
+  refine ⟨out, hout, ?_, ?_⟩
+  · rw [run_frame_count]; simp [hlen]
+  · apply run_channel_count
+    intro b hb fr hfr
+    simp only [List.mem_singleton] at hb
+    subst hb
+    simp only [List.mem_map] at hfr
+    obtain ⟨r, -, rfl⟩ := hfr
+    simp [rowList, hn]
+
+/-- The exact (unquantised) output frames: the specified rendering `RenderSpec.out` of the whole input, every sample
+scaled by the output gain and routed / scaled by the speakers file's upmix matrix (`outBlock`). -/
+def exactOut {n : Nat} (c : Cfg (Earverif.Stream.Frame n)) (objs : List (ObjItem (Earverif.Stream.Frame n)))
+    (dss : List (DsItem (Earverif.Stream.Frame n))) (hoas : List (HoaItem (Earverif.Stream.Frame n)))
+    (chans : List String) (speakers : Option (List Speaker)) (gain : Rat) (input : List (List Rat)) :
+    List (List Rat) :=
+  outBlock gain (speakers.map fun sp => upmix sp chans) ((RenderSpec.out c objs dss hoas input).map rowList)
+
+/-- **`file_samples_eq_spec`** — the C04 sentence "samples equal the in-memory rendering of the selected programme
+scaled by the output gain and routed and scaled as the speakers file says, to within one quantisation step" as ONE
+theorem from input audio + metadata to file codes.  For every session inside the static conditions (`SessionWF`), every
+input file content `input` and every block size `≥ 1` (8192 in `OfflineRenderDriver`): reading the file with
+`iter_sample_blocks(blocksize)` (C18's specification), calling `render` once per block and `get_tail` once at the end
+(the C02/C03 renderer model with the overlap-save convolver), scaling, upmixing, monitoring and writing each returned
+block (`FileRender.run`) succeeds; it writes exactly `input.length` frames of `nChannels` samples; frame by frame the
+written codes are `quantise M` of the exact frames `exactOut` = `gain · U · RenderSpec.out(input)` — the renderer's
+block structure, the convolver's latency compensation and the tail have disappeared —; and (`M = 2^(bits−1) − 1 > 0`)
+every written code is within one quantisation step of the exact sample times `M` when that sample is inside full scale,
+and is `±M` (clipped) otherwise. -/
+theorem file_samples_eq_spec {n : Nat} (c : Cfg (Earverif.Stream.Frame n))
+    (objs : List (ObjItem (Earverif.Stream.Frame n))) (dss : List (DsItem (Earverif.Stream.Frame n)))
+    (hoas : List (HoaItem (Earverif.Stream.Frame n)))
+    (hok : SessionWF c objs dss hoas) (input : List (List Rat)) (blocksize : Nat) (hbs : 1 ≤ blocksize)
+    (chans : List String) (hn : chans.length = n) (speakers : Option (List Speaker)) (gain : Rat) (f : Bool)
+    (M : Int) (hM : 0 < M) :
+    ∃ res, runFile (mRenderOS c) (mTailOS c) (RStateOS.init c objs dss hoas) blocksize chans speakers gain f M input
+        = .ok res ∧
+      res.frames = (exactOut c objs dss hoas chans speakers gain input).map (·.map (quantise M)) ∧
+      res.frames.length = input.length ∧ res.nChannels = nChannels chans speakers ∧
+      (∀ fr ∈ res.frames, fr.length = res.nChannels) ∧
+      ∀ fr ∈ exactOut c objs dss hoas chans speakers gain input, ∀ x ∈ fr,
+        (-1 ≤ x → x ≤ 1 → ((quantise M x : Int) : Rat) - x * M < 1 ∧ x * M - ((quantise M x : Int) : Rat) < 1) ∧
+        (1 < x → quantise M x = M) ∧ (x < -1 → quantise M x = -M) := by
+  have hparts := (fileParts_spec blocksize hbs input).1
+  have hout := render_refines_spec_os_ok c objs dss hoas hok.ok hok.taps_ne hok.index (fileParts blocksize input)
+  rw [hparts] at hout
+  obtain ⟨st, os, st'', tail, hrun, htail, hcat⟩ := renderAllOS_parts c objs dss hoas _ _ hout
+  have hcalls := renderCalls_runOS c _ _ _ _ _ _ hrun htail
+  have hflat : (List.map (fun x => List.map rowList x) os ++ [List.map rowList tail]).flatten =
+      (RenderSpec.out c objs dss hoas input).map rowList := by
+    rw [hcat]
+    simp only [List.flatten_append, List.flatten_cons, List.flatten_nil, List.append_nil, List.map_append,
+      List.map_flatten]
+  have hrow : ∀ (l : List (Earverif.Stream.Frame n)), ∀ fr ∈ l.map rowList, fr.length = chans.length := by
+    intro l fr hfr
+    rw [List.mem_map] at hfr
+    obtain ⟨r, -, rfl⟩ := hfr
+    simp [rowList, hn]
+  have hframes : (run chans speakers gain f M (List.map (fun x => List.map rowList x) os ++ [List.map rowList tail])).frames =
+      (exactOut c objs dss hoas chans speakers gain input).map (·.map (quantise M)) := by
+    simp only [run, exactOut]
+    rw [outBlock_flatten, hflat]
+  refine ⟨run chans speakers gain f M (List.map (fun x => List.map rowList x) os ++ [List.map rowList tail]),
+    by simp only [runFile, hcalls], hframes, ?_, rfl, ?_, ?_⟩
+  · rw [hframes]
+    simp [exactOut, outBlock, RenderSpec.out]
+  · apply run_channel_count
+    intro b hb fr hfr
+    rw [List.mem_append] at hb
+    rcases hb with hb | hb
+    · rw [List.mem_map] at hb
+      obtain ⟨l, -, rfl⟩ := hb
+      exact hrow l fr hfr
+    · rw [List.mem_singleton] at hb
+      subst hb
+      exact hrow tail fr hfr
+  · intro fr _ x _
+    refine ⟨fun h1 h2 => ?_, (quantise_clips M x).1, (quantise_clips M x).2⟩
+    obtain ⟨q1, q2, -, -⟩ := quantise_within_step M hM x h1 h2
+    exact ⟨q1, q2⟩
+
+/-- **File in, file out: frames out = frames in, through the real call sequence** (corollary of
+`file_samples_eq_spec`). -/
+theorem file_render_blocks_frames {n : Nat} (c : Cfg (Earverif.Stream.Frame n))
+    (objs : List (ObjItem (Earverif.Stream.Frame n))) (dss : List (DsItem (Earverif.Stream.Frame n)))
+    (hoas : List (HoaItem (Earverif.Stream.Frame n)))
+    (hok : SessionWF c objs dss hoas) (input : List (List Rat)) (blocksize : Nat) (hbs : 1 ≤ blocksize)
+    (chans : List String) (hn : chans.length = n) (speakers gain f M) :
+    ∃ res, runFile (mRenderOS c) (mTailOS c) (RStateOS.init c objs dss hoas) blocksize chans speakers gain f M input
+        = .ok res ∧
+      res.frames.length = input.length ∧ res.nChannels = nChannels chans speakers ∧
+      ∀ fr ∈ res.frames, fr.length = res.nChannels := by
+  have hparts := (fileParts_spec blocksize hbs input).1
+  have hout := render_refines_spec_os_ok c objs dss hoas hok.ok hok.taps_ne hok.index (fileParts blocksize input)
+  rw [hparts] at hout
+  obtain ⟨st, os, st'', tail, hrun, htail, hcat⟩ := renderAllOS_parts c objs dss hoas _ _ hout
+  have hcalls := renderCalls_runOS c _ _ _ _ _ _ hrun htail
+  have hlen : (os.flatten ++ tail).length = input.length := by rw [← hcat]; simp [RenderSpec.out]
+  refine ⟨run chans speakers gain f M (List.map (fun x => List.map rowList x) os ++ [List.map rowList tail]),
+    by simp only [runFile, hcalls], ?_, rfl, ?_⟩
+  · rw [run_frame_count, ← hlen]
+    simp only [List.map_append, List.map_map, List.sum_append, List.length_append, List.length_flatten]
+    simp [Function.comp_def]
+  · apply run_channel_count
+    intro b hb fr hfr
+    have hrow : ∀ (l : List (Earverif.Stream.Frame n)), ∀ fr ∈ l.map rowList, fr.length = chans.length := by
+      intro l fr hfr
+      rw [List.mem_map] at hfr
+      obtain ⟨r, -, rfl⟩ := hfr
+      simp [rowList, hn]
+    rw [List.mem_append] at hb
+    rcases hb with hb | hb
+    · rw [List.mem_map] at hb
+      obtain ⟨l, -, rfl⟩ := hb
+      exact hrow l fr hfr
+    · rw [List.mem_singleton] at hb
+      subst hb
+      exact hrow tail fr hfr
+
+/-- **A renderer exception aborts the file run**: when the session raises (e.g. `IndexError` for a track outside the
+input file's channels), `runFile` returns that exception and no result. -/
+theorem file_render_raises {n : Nat} (c : Cfg (Earverif.Stream.Frame n))
+    (objs : List (ObjItem (Earverif.Stream.Frame n))) (dss : List (DsItem (Earverif.Stream.Frame n)))
+    (hoas : List (HoaItem (Earverif.Stream.Frame n))) (parts : List (List (List Rat))) (e)
+    (h : renderAllOS c objs dss hoas parts = .error e) :
+    renderCalls (mRenderOS c) (mTailOS c) (RStateOS.init c objs dss hoas) parts = .error e := by
+  simp only [renderAllOS] at h
+  generalize RStateOS.init c objs dss hoas = st0 at h ⊢
+  induction parts generalizing st0 with
+  | nil =>
+    simp only [RStateOS.run] at h
+    simp only [renderCalls, mTailOS]
+    cases ht : st0.get_tail c with
+    | error e' => rw [ht] at h; simp only [Except.error.injEq] at h; rw [h]
+    | ok r => rw [ht] at h; cases h
+  | cons b bs ih =>
+    simp only [RStateOS.run] at h
+    simp only [renderCalls, mRenderOS]
+    cases hr : st0.render c b with
+    | error e' => rw [hr] at h; simp only [Except.error.injEq] at h; rw [h]
+    | ok r =>
+      obtain ⟨st1, o⟩ := r
+      rw [hr] at h
+      simp only at h ⊢
+      have := ih st1 (by
+        cases hrun : RStateOS.run c st1 bs with
+        | error e' => rw [hrun] at h; simpa using h
+        | ok r2 =>
+          obtain ⟨st2, os2⟩ := r2
+          rw [hrun] at h
+          simp only at h ⊢
+          cases ht : st2.get_tail c with
+          | error e' => rw [ht] at h; simpa using h
+          | ok r3 => rw [ht] at h; cases h)
+      rw [this]
+
+/-! ### Non-vacuity of `SessionWF` at the frame type the theorems use, and the composed statement evaluated
+
+A two-loudspeaker layout (`Frame 2`), one input channel, sample rate 10, `block_size = 2`, a one-tap decorrelation
+filter; one DirectSpeakers item on track 0 with a single untimed block, gains `(1, 1/2)`. -/
+def exCfgF : Cfg (Earverif.Stream.Frame 2) := ⟨10, 2, [⟨#v[1, 1]⟩], 1⟩
+def exDssF : List (DsItem (Earverif.Stream.Frame 2)) := [⟨0, [⟨none, none, none, none, false, none, ⟨#v[1, 1/2]⟩⟩]⟩]
+
+theorem exSessionF_wf : SessionWF exCfgF [] exDssF [] where
+  ok :=
+    { block_size_pos := by decide
+      objs_ok := by intro it hit; cases hit
+      dss_ok := by
+        intro it hit
+        simp only [exDssF, List.mem_cons, List.not_mem_nil, or_false] at hit
+        subst hit
+        refine ⟨⟨_, rfl⟩, ?_, ?_⟩
+        · intro m hm
+          simp only [List.mem_cons, List.not_mem_nil, or_false] at hm
+          subst hm
+          refine ⟨?_, ?_, ?_⟩ <;> intro d hd <;> cases hd
+        · intro m ms h
+          cases h
+          decide +kernel
+      hoas_ok := by intro it hit; cases hit }
+  index :=
+    { obj_tracks := by intro it hit; cases hit
+      ds_tracks := by decide
+      hoa_tracks := by intro it hit; cases hit
+      hoa_nonempty := by intro it hit; cases hit
+      hoa_gains := by intro it hit; cases hit }
+  taps_ne := by decide
+
+/-- The whole chain evaluated by the kernel on a three-frame file read in blocks of two frames (16-bit codes,
+output gain 1/2, no speakers file): `input·(1, 1/2)·gain·32767`, truncated. -/
+example : (runFile (mRenderOS exCfgF) (mTailOS exCfgF) (RStateOS.init exCfgF [] exDssF []) 2 ["M+030", "M-030"] none
+    (1/2) false 32767 [[1], [-1/2], [1/4]]).toOption.map (·.frames) =
+    some [[16383, 8191], [-8191, -4095], [4095, 2047]] := by decide +kernel
 
 end Earverif.FileRender
